@@ -1210,6 +1210,7 @@ fn copy_prop_reverse(
 
     let mut to_delete: FxHashSet<Value> = FxHashSet::default();
     let mut src_to_dst: FxHashMap<Symbol, Symbol> = FxHashMap::default();
+    let mut accepted: Vec<(Value, Symbol, Symbol)> = vec![];
 
     for (inst, dst_sym, src_sym) in candidates {
         match src_sym {
@@ -1241,6 +1242,24 @@ fn copy_prop_reverse(
                     }
                 }
                 to_delete.insert(inst);
+                accepted.push((inst, src_sym, dst_sym));
+            }
+        }
+    }
+
+    // Two different sources that are copied into the same destination may be live at the same
+    // time (e.g. `a_ <- x; b_ <- y; if c { v <- a_ } else { v <- b_ }`): replacing both of them by
+    // the destination makes the second initialisation clobber the first one. Without a liveness
+    // check we cannot tell, so such destinations are left alone.
+    {
+        let mut srcs_of_dst: FxHashMap<Symbol, FxHashSet<Symbol>> = FxHashMap::default();
+        for (_, src_sym, dst_sym) in &accepted {
+            srcs_of_dst.entry(*dst_sym).or_default().insert(*src_sym);
+        }
+        for (inst, src_sym, dst_sym) in &accepted {
+            if srcs_of_dst[dst_sym].len() > 1 {
+                to_delete.remove(inst);
+                src_to_dst.remove(src_sym);
             }
         }
     }
